@@ -257,4 +257,40 @@ theorem eoKVs (cfg : Cfg) (s : Bool) : ∀ kvs : List (Key × PyObj), ∀ p ∈ 
       · exact eoKVs cfg s ys p hp
 end
 
+mutual
+/-- every path below a node starts with the entries that lead to the node -/
+theorem STree.pathsT_prefix : ∀ (s : STree) (pre : List Key) (p : List Key), p ∈ s.pathsT pre → pre <+: p
+  | .leaf, pre, p, h => by
+      simp only [STree.pathsT, List.mem_singleton] at h
+      subst h; exact List.prefix_refl _
+  | .node i cs, pre, p, h => by
+      obtain ⟨e, _, hp⟩ := STree.pathsL_prefix cs _ pre p h
+      exact (List.prefix_append pre [e]).trans hp
+theorem STree.pathsL_prefix : ∀ (cs : List STree) (es pre : List Key) (p : List Key),
+    p ∈ STree.pathsL cs es pre → ∃ e ∈ es, (pre ++ [e]) <+: p
+  | [], _, _, _, h => by simp [STree.pathsL] at h
+  | _ :: _, [], _, _, h => by simp [STree.pathsL] at h
+  | c :: cs, e :: es, pre, p, h => by
+      simp only [STree.pathsL, List.mem_append] at h
+      rcases h with h | h
+      · exact ⟨e, by simp, STree.pathsT_prefix c (pre ++ [e]) p h⟩
+      · obtain ⟨e', he', hp⟩ := STree.pathsL_prefix cs es pre p h
+        exact ⟨e', by simp [he'], hp⟩
+end
+
+theorem STree.pathsL_prefix' (cs : List STree) (es pre p : List Key) (h : p ∈ STree.pathsL cs es pre) :
+    pre <+: p := by
+  obtain ⟨e, _, hp⟩ := STree.pathsL_prefix cs es pre p h
+  exact (List.prefix_append pre [e]).trans hp
+
+mutual
+/-- child entries pairwise distinct at every node (dict keys, positions, declared entries) -/
+def STree.entriesNodup : STree → Bool
+  | .leaf => true
+  | .node i cs => decide (i.childEntries cs.length).Nodup && STree.entriesNodupL cs
+def STree.entriesNodupL : List STree → Bool
+  | [] => true
+  | c :: cs => c.entriesNodup && STree.entriesNodupL cs
+end
+
 end Optree
